@@ -556,6 +556,10 @@ impl Eut3 {
                     sink.publish_ack_cb(move |id, disconnected| {
                         if nb2.reenter.get() {
                             let _ = (sink2.is_ready(), sink2.credit(), sink2.is_open());
+                            // an application that closes its sink when told that the connection is gone
+                            if disconnected {
+                                sink2.close();
+                            }
                         }
                         nb2.acks.borrow_mut().push((s5::Ack5 { pid: id.get(), ..Default::default() }, disconnected));
                     });
